@@ -60,7 +60,7 @@ def consume (b : BB) (n : Nat) : BB :=
 
 /-- `PrepareRead(n)`; `true` = `ErrNeedMore`. -/
 def prepareRead (b : BB) (n : Nat) : BB × Bool :=
-  if n - b.readLen > 0 then
+  if n > b.readLen then
     (if b.writeLen ≥ n - b.readLen then (b.commit (n - b.readLen), false) else (b, true))
   else (b, false)
 
@@ -84,23 +84,27 @@ inductive DecRes where
 def resetDecode (d : Dec) (b : BB) : Dec × BB :=
   if d.decodeReset then ({ decodeReset := false, decodeBytes := 0 }, b.consume d.decodeBytes) else (d, b)
 
-/-- `Decode(src)`. `slack` is only used if `Reserve` has to grow the buffer. -/
-def decode (limit slack : Nat) (d : Dec) (b : BB) : Dec × BB × DecRes :=
-  let (d, b) := resetDecode d b
-  let (b, needMore) := b.prepareRead headerLen
-  if needMore then (d, b, .needMore) else
+/-- `Decode(src)` after `c.resetDecode()`. `slack` is only used if `Reserve` has to grow the buffer. -/
+def decodeBody (limit slack : Nat) (d : Dec) (b : BB) : Dec × BB × DecRes :=
+  -- if err := src.PrepareRead(HeaderLen); err != nil { return nil, err }
+  if (b.prepareRead headerLen).2 then (d, (b.prepareRead headerLen).1, .needMore) else
   -- binary.BigEndian.Uint32(src.Data()[:HeaderLen])
-  match b.view with
+  match (b.prepareRead headerLen).1.view with
   | a0 :: a1 :: a2 :: a3 :: _ =>
-    let payloadLen := len32 a0 a1 a2 a3
-    if payloadLen > limit then (d, b, .tooBig) else
-    let (b', needMore) := b.prepareRead (headerLen + payloadLen)
-    if needMore then (d, b'.reserve (headerLen + payloadLen) slack, .needMore) else
-    let b' := b'.consume headerLen
-    let d' : Dec := { decodeReset := true, decodeBytes := payloadLen }
-    -- src.Data()[:payloadLen]
-    if payloadLen ≤ b'.view.length then (d', b', .item (b'.view.take payloadLen)) else (d', b', .panic)
-  | _ => (d, b, .panic)    -- slice bounds out of range
+    if len32 a0 a1 a2 a3 > limit then (d, (b.prepareRead headerLen).1, .tooBig) else
+    -- err := src.PrepareRead(HeaderLen + int(payloadLen)); on ErrNeedMore: src.Reserve(HeaderLen + int(payloadLen))
+    if ((b.prepareRead headerLen).1.prepareRead (headerLen + len32 a0 a1 a2 a3)).2 then
+      (d, (((b.prepareRead headerLen).1.prepareRead (headerLen + len32 a0 a1 a2 a3)).1).reserve (headerLen + len32 a0 a1 a2 a3) slack, .needMore)
+    else
+      -- src.Consume(HeaderLen); c.decodeReset = true; c.decodeBytes = int(payloadLen); return src.Data()[:payloadLen]
+      let b2 := (((b.prepareRead headerLen).1.prepareRead (headerLen + len32 a0 a1 a2 a3)).1).consume headerLen
+      let d2 : Dec := { decodeReset := true, decodeBytes := len32 a0 a1 a2 a3 }
+      if len32 a0 a1 a2 a3 ≤ b2.view.length then (d2, b2, .item (b2.view.take (len32 a0 a1 a2 a3))) else (d2, b2, .panic)
+  | _ => (d, (b.prepareRead headerLen).1, .panic)    -- slice bounds out of range
+
+/-- `Decode(src)` -/
+def decode (limit slack : Nat) (d : Dec) (b : BB) : Dec × BB × DecRes :=
+  decodeBody limit slack (resetDecode d b).1 (resetDecode d b).2
 
 inductive EncRes where
   | ok | tooBig | panic
